@@ -970,3 +970,182 @@ def i1c(prog):
     if not ok:
         findings.append({"key": "I1c:import_partial_units", "where": g["l"], "msg": "entering an imported unit no longer extends the import chain by one level on top of the previous chain", "detail": None})
     return inst, findings
+
+
+# ---------------------------------------------------------------------------
+# X3: location-list laws, by evaluating locexpr_producer::next, the elem/relem producer and the element/operation
+# words from their source against an abstract libdw.  The code reaches the list only through dwarf_getlocations'
+# return value (error / end / next offset) and copies what it returns, so lists of 0-3 entries with every kind of
+# range (ordinary, empty start==end, "everywhere" 0..-1) and 0-3 operations per entry realise all its comparisons.
+
+def x3(prog, tier="quick"):
+    import itertools
+    from cxxobj import CxxEvaluator, Struct, Obj, Vec, It, OutOfBounds, VarPtr
+    from absint import Thrown
+    inst, findings = [], []
+
+    def one(q, n=None):
+        fs = [f for f in prog.funcs.values() if f["q"] == q and f.get("body") is not None and (n is None or len(f["params"]) == n)]
+        if len(fs) != 1:
+            raise Broken("anchor %s vanished" % q)
+        return fs[0]
+    lp_ctor = one("(anonymous namespace)::locexpr_producer::locexpr_producer")
+    lp_next = one("(anonymous namespace)::locexpr_producer::next")
+    ep_next = one("(anonymous namespace)::elem_loclist_producer::next")
+    w_elem, w_relem = one("op_elem_loclist_elem::operate"), one("op_relem_loclist_elem::operate")
+    w_len, w_addr = one("op_length_loclist_elem::operate"), one("op_address_loclist_elem::operate")
+    w_off, w_lab = one("op_offset_loclist_op::operate"), one("op_label_loclist_op::operate")
+    p_elem, p_op = one("pred_op_loclist_elem::result"), one("pred_op_loclist_op::result")
+    pe_ctor, po_ctor = one("pred_op_loclist_elem::pred_op_loclist_elem"), one("pred_op_loclist_op::pred_op_loclist_op")
+
+    class Attr:
+        """abstract Dwarf_Attribute: the location list it denotes"""
+        def __init__(self, entries):
+            self.entries = entries
+
+        def copy_value(self):
+            return self
+
+        @property
+        def addr(self):
+            return id(self)
+
+    def mkops(atoms, base):
+        return Vec([Struct("Dwarf_Op", {"atom": a, "number": 0, "number2": 0, "offset": base + 3 * i}) for i, a in enumerate(atoms)], "Dwarf_Op[]")
+
+    def getlocations(ev, o, a):
+        attr, off, basep, startp, endp, exprp, lenp = a
+        if not isinstance(attr, Attr):
+            raise OutOfBounds("dwarf_getlocations on something that is not the producer's attribute")
+        off = int(off)
+        if off < 0 or off > len(attr.entries):
+            raise OutOfBounds("dwarf_getlocations resumed at offset %d, which it never returned" % off)
+        if off == len(attr.entries):
+            return 0
+        s, e_, ops = attr.entries[off]
+        startp.store(s)
+        endp.store(e_)
+        exprp.store(It(ops, 0))
+        lenp.store(len(ops.items))
+        return off + 1
+
+    def thrower(ev, o, a):
+        raise Thrown("libdw error")
+    hooks = {
+        "dwarf_getlocations": getlocations,
+        "throw_libdw": thrower,
+        "dw_offset_dom": lambda ev, o, a: "offset-dom", "dw_locexpr_opcode_dom": lambda ev, o, a: "opcode-dom",
+        "dw_address_dom": lambda ev, o, a: "address-dom",
+        "ctor:pred_result": lambda ev, o, a: a[0],
+        "ctor:coverage": lambda ev, o, a: Vec([], "coverage") if not a else a[0].copy_value(),
+    }
+    ev = CxxEvaluator(hooks, {"dec_constant_dom": "dec-dom"}, prog=prog, structs={"cov_range": ["start", "length"]},
+                      defaults={"coverage": lambda: Vec([], "coverage")})
+    key = "X3:locexpr_producer"
+    ranges = [(0x10, 0x20), (0x30, 0x30), (0, (1 << 64) - 1)]
+    lists = [()]
+    for n in (1, 2, 3):
+        lists += list(itertools.product(range(len(ranges)), repeat=n))
+    n_eval = 0
+    dwctx = Obj("dwfl_context")
+
+    def fld(o, n):
+        if not hasattr(o, n):
+            raise Broken("interpreted object %r has no field %s" % (o, n))
+        return getattr(o, n)
+
+    def cst(v):
+        """(number, domain) of an interpreted value_cst"""
+        c = fld(v, "m_cst")
+        val = fld(c, "m_value")
+        return (fld(val, "m_u") if isinstance(val, Obj) else val), fld(c, "m_dom"), fld(v, "m_pos")
+
+    def pr(r):
+        if isinstance(r, bool):
+            return "yes" if r else "no"
+        return r[1] if isinstance(r, tuple) else r
+    try:
+        for combo in lists:
+            entries = []
+            for k, ri in enumerate(combo):
+                atoms = [0x50 + k, 0x9f, 0x50 + k][:(k + ri) % 4] if tier == "quick" else [0x50 + k, 0x9f, 0x50 + k][:(k + ri) % 4]
+                entries.append((ranges[ri][0], ranges[ri][1], mkops(atoms, 0x100 * k)))
+            attr = Attr(entries)
+            what = "a location list with the entries %s" % (["%#x..%#x (%d ops)" % (s, e_, len(o.items)) for s, e_, o in entries],)
+            prod = ev.construct(lp_ctor, Obj("(anonymous namespace)::locexpr_producer"), [dwctx, attr])
+            got = []
+            for _ in range(len(entries) + 2):
+                v = ev.call(lp_next, prod, [])
+                n_eval += 1
+                if v is None:
+                    break
+                got.append(v)
+            seq = [(fld(g, "m_low"), fld(g, "m_high"), fld(g, "m_expr").vec if isinstance(fld(g, "m_expr"), It) else None, fld(g, "m_exprlen")) for g in got]
+            want = [(s, e_, o, len(o.items)) for s, e_, o in entries]
+            prob = None
+            if [(a, b) for a, b, _, _ in seq] != [(a, b) for a, b, _, _ in want]:
+                prob = "yields the ranges %s; stored are %s" % (["%#x..%#x" % (a, b) for a, b, _, _ in seq], ["%#x..%#x" % (a, b) for a, b, _, _ in want])
+            elif any(x[2] is not y[2] or x[3] != y[3] for x, y in zip(seq, want)):
+                prob = "pairs a range with the operations of another entry"
+            elif [fld(g, "m_pos") for g in got] != list(range(len(got))):
+                prob = "numbers the elements %s instead of 0, 1, 2, ..." % [fld(g, "m_pos") for g in got]
+            if prob:
+                findings.append({"key": key, "where": "libzwerg/" + lp_next["l"], "msg": "@AT_location on %s %s: the yielded elements must be the attribute's address ranges in stored order" % (what, prob), "detail": None})
+                break
+            # words on each element
+            for g, (s, e_, ops) in zip(got, entries):
+                n = len(ops.items)
+                atoms = [o.atom for o in ops.items]
+                r = ev.call(w_len, Obj("op"), [g.copy_value()])
+                if cst(r)[0] != n or cst(r)[2] != 0:
+                    findings.append({"key": "X3:length", "where": "libzwerg/" + w_len["l"], "msg": "`length` of a location expression with %d operations yields %s" % (n, cst(r)[0]), "detail": None})
+                r = ev.call(w_addr, Obj("op"), [g.copy_value()])
+                runs = [(x.start, x.length) for x in fld(r, "cov").items] if hasattr(r, "cov") else None
+                if runs is None:
+                    cov = [v for v in vars(r).values() if isinstance(v, Vec)]
+                    runs = [(x.start, x.length) for x in cov[0].items] if cov else None
+                exp = [(s, (e_ - s) & ((1 << 64) - 1))] if e_ != s else []
+                if runs != exp:
+                    findings.append({"key": "X3:address", "where": "libzwerg/" + w_addr["l"], "msg": "`address` of the element %#x..%#x yields the runs %s" % (s, e_, runs), "detail": None})
+                for wf, fwd, nm in ((w_elem, True, "elem"), (w_relem, False, "relem")):
+                    p = ev.call(wf, Obj("op"), [g.copy_value()])
+                    outs = []
+                    for _ in range(n + 2):
+                        v = ev.call(ep_next, p, [])
+                        n_eval += 1
+                        if v is None:
+                            break
+                        outs.append(v)
+                    idxs = [fld(v, "m_dwop").pos if isinstance(fld(v, "m_dwop"), It) and fld(v, "m_dwop").vec is ops else None for v in outs]
+                    exp_i = list(range(n)) if fwd else list(range(n))[::-1]
+                    if idxs != exp_i:
+                        findings.append({"key": "X3:" + nm, "where": "libzwerg/" + ep_next["l"], "msg": "`%s` on an expression with %d operations yields the operations %s (expected %s)" % (nm, n, idxs, exp_i), "detail": None})
+                    elif fwd and [fld(v, "m_pos") for v in outs] != list(range(n)):
+                        findings.append({"key": "X3:" + nm, "where": "libzwerg/" + ep_next["l"], "msg": "`elem` numbers the operations %s instead of 0, 1, 2, ..." % [fld(v, "m_pos") for v in outs], "detail": None})
+                    if fwd:
+                        for v, o in zip(outs, ops.items):
+                            r = ev.call(w_off, Obj("op"), [v.copy_value()])
+                            if cst(r)[0] != o.offset or cst(r)[1] != "offset-dom":
+                                findings.append({"key": "X3:offset", "where": "libzwerg/" + w_off["l"], "msg": "`offset` of an operation stored at %#x yields %s (%s)" % (o.offset, cst(r)[0], cst(r)[1]), "detail": None})
+                            r = ev.call(w_lab, Obj("op"), [v.copy_value()])
+                            if cst(r)[0] != o.atom or cst(r)[1] != "opcode-dom":
+                                findings.append({"key": "X3:label", "where": "libzwerg/" + w_lab["l"], "msg": "`label` of an operation with opcode %#x yields %s (%s)" % (o.atom, cst(r)[0], cst(r)[1]), "detail": None})
+                            for code in (o.atom, 0x9f, 0x11):
+                                po = ev.construct(po_ctor, Obj("pred_op_loclist_op"), [code])
+                                if pr(ev.call(p_op, po, [v])) != ("yes" if o.atom == code else "no"):
+                                    findings.append({"key": "X3:?OP_x:op", "where": "libzwerg/" + p_op["l"], "msg": "?OP_%#x on an operation with opcode %#x answers wrongly" % (code, o.atom), "detail": None})
+                for code in set(atoms) | {0x9f, 0x11, 0x50, 0x51, 0x52}:
+                    pe = ev.construct(pe_ctor, Obj("pred_op_loclist_elem"), [code])
+                    if pr(ev.call(p_elem, pe, [g])) != ("yes" if code in atoms else "no"):
+                        findings.append({"key": "X3:?OP_x:elem", "where": "libzwerg/" + p_elem["l"], "msg": "?OP_%#x on an expression with the opcodes %s answers wrongly: it must hold iff some operation has that opcode" % (code, [hex(a) for a in atoms]), "detail": None})
+            if findings:
+                break
+    except OutOfBounds as x:
+        findings.append({"key": key, "where": "libzwerg/" + lp_next["l"], "msg": "location-list code: %s" % x, "detail": None})
+    except Thrown as x:
+        findings.append({"key": key, "where": "libzwerg/" + lp_next["l"], "msg": "location-list code raises an error (%s) on a well-formed list" % x, "detail": None})
+    seen = set()
+    findings = [f for f in findings if not (f["key"] in seen or seen.add(f["key"]))]
+    for k in ("locexpr_producer", "length", "address", "elem", "relem", "offset", "label", "?OP_x:op", "?OP_x:elem"):
+        inst.append(("X3:" + k, {"lists": len(lists), "next_calls": n_eval}))
+    return inst, findings
